@@ -769,6 +769,14 @@ fn run_reader_prop(ctx: &Ctx, prop: Prop, lit: (usize, u64)) -> i32 {
         let d = least_privilege_phase(ctx, deadline, &mut agg);
         extra.push(("least_privilege_environment", d));
     }
+    if prop == Prop::C04 {
+        let d = e2e_self_exit_and_restart(ctx, &mut agg);
+        extra.push(("end_to_end_daemon_that_ends_by_itself_and_its_successor", d));
+    }
+    if prop == Prop::C18 {
+        let d = e2e_stalled_daemon(ctx, &mut agg);
+        extra.push(("end_to_end_daemon_stopped_inside_segment_creation", d));
+    }
     if prop == Prop::C18 {
         let d = directed_continuous_writer(ctx, &mut agg);
         extra.push(("directed_continuous_writer_scenario", d));
@@ -797,6 +805,110 @@ fn run_reader_prop(ctx: &Ctx, prop: Prop, lit: (usize, u64)) -> i32 {
         machinery_failure("nothing was explored before the cap");
     }
     finish(ctx, Outcome { level: if prop == Prop::C04 { "fault_enumeration" } else { "model_checking" }, coverage, assumptions: assumptions(), violations })
+}
+
+/// (C04) The daemon deaths the in-process explorations cannot produce are the ones the daemon performs itself: a
+/// worker thread dies, everything is torn down in order and `main()` returns - every line after the loops runs.
+/// procmc/e2e.rs `run_worker_death` does that to the release binary and starts a successor; the file must still
+/// be there (same inode, 72 bytes, even generation) and a client that stayed attached must see the successor.
+fn e2e_self_exit_and_restart(ctx: &Ctx, agg: &mut Agg) -> Value {
+    use crate::procmc::e2e;
+    let bin = e2e::binary(ctx);
+    if !std::path::Path::new(&bin).exists() {
+        return json!({"skipped": format!("release binary {bin} not built")});
+    }
+    let shim = match e2e::shim(ctx) {
+        Ok(s) => s,
+        Err(e) => machinery_failure(&format!("C04: {e}")),
+    };
+    let v = match e2e::run_worker_death(&bin, &shim, 0, true, false) {
+        Ok(v) => v,
+        Err(e) => machinery_failure(&format!("C04 end-to-end scenario: {e}")),
+    };
+    if let Some(u) = v["unavailable"].as_str() {
+        return json!({"skipped": format!("the sandbox does not allow it: {u}")});
+    }
+    if v["first_lifetime_never_synchronized"] == true {
+        machinery_failure("C04 end-to-end scenario: the first daemon never published a Synchronized record against the stand-in chronyd");
+    }
+    let doc = json!({"engine": "seqmc", "directed": "end to end: a daemon that ends by itself, then its successor", "observed": v, "calls": []});
+    let first_ino = v["first_synchronized_publication"]["inode"].as_u64();
+    let left = &v["left_behind"];
+    if v["daemon_exit_status"].is_null() {
+        // C15's matter, not C04's: without an exit there is no restart to look at
+        return json!({"skipped": "the daemon did not end by itself when its polling thread died (C15 reports that)", "observed": v});
+    }
+    if left["exists"] != true {
+        agg.add("C04:e2e:segment-removed-on-exit".into(), 0, "a daemon whose polling thread died shut itself down and left NO file at the segment path: the valid segment it had published is gone (clients that attach now find nothing; the successor cannot take it over in place)".into(), doc.clone());
+    } else {
+        if left["inode"].as_u64() != first_ino {
+            agg.add("C04:e2e:segment-replaced-on-exit".into(), 0, format!("a daemon that shut itself down left another file at the segment path (inode {} instead of {})", left["inode"], v["first_synchronized_publication"]["inode"]), doc.clone());
+        }
+        let g = left["generation"].as_u64().unwrap_or(0);
+        if left["length"].as_u64() != Some(72) || g == 0 || g % 2 == 1 {
+            agg.add("C04:e2e:segment-invalid-after-exit".into(), 0, format!("a daemon that shut itself down left a segment of {} bytes with generation {g}", left["length"]), doc.clone());
+        }
+    }
+    let second = &v["second_lifetime"];
+    if second["published_synchronized"] != true {
+        agg.add("C04:e2e:successor-does-not-publish".into(), 0, "the successor of a daemon that shut itself down did not publish a Synchronized record within 20 s".into(), doc.clone());
+    } else {
+        if second["inode_of_path_now"].as_u64() != first_ino {
+            agg.add("C04:e2e:not-taken-over-in-place".into(), 0, format!("the successor of a daemon that shut itself down publishes into another file (inode {} instead of {}): clients attached to the first daemon's segment never see it", second["inode_of_path_now"], v["first_synchronized_publication"]["inode"]), doc.clone());
+        }
+        if second["attached_client_caught_up"] != true {
+            agg.add("C04:e2e:attached-client-stuck".into(), 0, format!("a client that attached during the first daemon's lifetime and stayed attached never sees the successor's publications (it sees {})", second["attached_client_sees"]), doc.clone());
+        }
+    }
+    json!({"kind": "directed (real time, release binary in a private mount namespace)", "observed": v})
+}
+
+/// (C18) "Reading never blocks on the daemon", for a daemon that is stopped - not dead - inside the creation of
+/// its segment: what the kernel holds for a stopped process (open descriptors, record locks) is still held, and
+/// only another process can tell. procmc/e2e.rs `run_stalled_daemon`, at every write(2) of the segment's
+/// creation and at its fsync, with nothing or garbage at the path before.
+fn e2e_stalled_daemon(ctx: &Ctx, agg: &mut Agg) -> Value {
+    use crate::procmc::e2e;
+    let bin = e2e::binary(ctx);
+    if !std::path::Path::new(&bin).exists() {
+        return json!({"skipped": format!("release binary {bin} not built")});
+    }
+    let shim = match e2e::shim(ctx) {
+        Ok(s) => s,
+        Err(e) => machinery_failure(&format!("C18: {e}")),
+    };
+    let mut points: Vec<String> = ctx.tier.pick(vec![0usize, 4, 9], (0..24).collect()).into_iter().map(|k| format!("write:{k}")).collect();
+    points.push("fsync".into());
+    let cases: Vec<(String, Option<Vec<u8>>)> = points.iter().flat_map(|p| [(p.clone(), None), (p.clone(), Some(b"garbage!\n".to_vec()))]).collect();
+    let limit_ms = 5000;
+    let results: Vec<Result<Value, String>> = std::thread::scope(|s| {
+        let hs: Vec<_> = cases.iter().map(|(p, pre)| { let (bin, shim) = (bin.clone(), shim.clone()); s.spawn(move || e2e::run_stalled_daemon(&bin, &shim, p, pre.clone(), limit_ms)) }).collect();
+        hs.into_iter().map(|h| h.join().unwrap_or_else(|_| Err("scenario thread panicked".into()))).collect()
+    });
+    let mut report = vec![];
+    let mut reached = 0;
+    for ((p, pre), r) in cases.iter().zip(results) {
+        let v = match r {
+            Ok(v) => v,
+            Err(e) => machinery_failure(&format!("C18 end-to-end scenario (stall at {p}): {e}")),
+        };
+        if let Some(u) = v["unavailable"].as_str() {
+            return json!({"skipped": format!("the sandbox does not allow it: {u}")});
+        }
+        let before = if pre.is_some() { "9 bytes of garbage" } else { "nothing" };
+        if v["stall_point_reached"] == true {
+            reached += 1;
+            if v["client_returned"] != true {
+                agg.add("C18:e2e:client-blocks-on-a-stopped-daemon".into(), 0, format!("with the daemon stopped (not dead) at '{p}' of creating its segment ({before} at the path before), a client process that opens the segment has not returned after {limit_ms} ms: reading blocks on the daemon"),
+                    json!({"engine": "seqmc", "directed": "end to end: a daemon stopped inside the creation of its segment", "stall_point": p, "before": before, "observed": v, "calls": []}));
+            }
+        }
+        report.push(json!({"daemon_stopped_at": p, "at_the_path_before": before, "observed": v}));
+    }
+    if reached == 0 {
+        machinery_failure("C18 end-to-end: no stall point was reached (the shim is not in effect?)");
+    }
+    json!({"kind": "directed (real time, release binary in a private mount namespace, harness/cabi/envshim.c stops the daemon)", "stall_points_reached": reached, "client_time_limit_ms": limit_ms, "scenarios": report})
 }
 
 /// A long sequential run (real memory, no exploration): 70 000 consecutive publications through the
